@@ -32,6 +32,7 @@ specs["C01"] = {"runs": [
     run("resolver:Harness_C01_idempotent", QT, {"K": 3, "M": 2, "L": 1}, "fp", "all", note="IEEE-754 encoding: re-resolving through the other entry point is bit-identical"),
     run("resolver:Harness_C01_resolve", T, {"K": 3, "M": 2, "L": 3}, "real", "all", cover=["acyclic-book", "nesting>=2"]),
     run("resolver:Harness_C01_resolve", T, {"K": 3, "M": 2, "L": 1, "tight": 1}, "real", "all", cover=["acyclic-book", "nesting>=2"]),
+    run("cmd/hranoprovod-cli:Harness_app_maxdepth", QT, {}, owned=["maxdepth:book-nested-less-deeply-than-the-limit-resolves"], cover=["ran"], note="whole application: a book nested 3 deep resolves in nine commands whenever the limit in force (flag > environment > configuration file > default) is 4 or more"),
     run("cmd/hranoprovod-cli:Harness_app_pipeline", QT, {"command": 4}, "real", cover=["ran"], note="whole application, `csv database-resolved`: the book as text through the real parser and resolver (nested recipes, repeated ingredients, forward and backward references) against path sums"),
     run("cmd/hranoprovod-cli:Harness_app_pipeline", QT, {"command": 5}, "real", cover=["ran"], note="whole application, `report element-total x`"),
     run("resolver:Harness_C01_resolve", T, {"K": 4, "M": 1, "L": 2}, "real", "all", cover=["acyclic-book", "nesting>=2"], note="chains of depth 4; 4! visiting orders"),
